@@ -30,6 +30,8 @@ CLAIMED = {
  "C02": dict(cat="exploration", ref="DESIGN.md 5 (C02), 3.4", text="Bounded-exhaustive partition check against the TLA+ reference CacheKey: enumerated wire targets are parsed by http.ReadRequest and keyed by the real MakeFromRequest; TLC judges that keys are shared exactly as the Strict/Loose identities demand.", note="bounded target language; percent-encoding variants and ''/'/' accepted either way", tech="TLA+ reference identity + TLC-enumerated targets + partition judged by TLC"),
  "C16": dict(cat="exploration", ref="DESIGN.md 5 (C16), 3.9", text="Bounded-exhaustive enumeration of the small grammars (range-spec, cache-control/expires, PHC, byte-size) generated by TLC and fed to the real parsers under recover(); TLC judges no-panic (and acceptance of well-formed PHC).", note="no coverage-guided fuzzing; enumerable grammars only", tech="TLC-enumerated grammars + real parsers under recover(), judged by TLC"),
  "C17": dict(cat="exploration", ref="DESIGN.md 5 (C17), 3.6", text="Size-string grammar/value/round-trip judged by TLC against the ByteSize reference over an enumerated string language and boundary byte counts; config save/load and override sequences judged against ConfigCells when present.", note="bounded languages; values above 2^31 compared via quotient/remainder", tech="TLA+ reference grammar + TLC-enumerated inputs + differential run judged by TLC"),
+ "C18": dict(cat="fault_enumeration", ref="DESIGN.md 5 (C18), 3.6", text="TLC enumerates update documents (valid / unworkable / ill-typed values, several keys), overrides and a failing file write as steps of the ConfigCells spec and checks OnlyWorkable / FileIsBase / ComponentsFollow; each sequence is replayed on the real config package with a live cache, janitor and listeners, and after every step the effective settings, the components and the file are judged by TLC trace validation; a dead process is a violation.", note="five settings; write failure injected at one byte count per failing update", tech="TLA+ spec: fault placements generated by TLC, replayed on the real config package, judged by TLC trace validation"),
+ "C19": dict(cat="model_checking", ref="DESIGN.md 5 (C19), 3.6", text="TLC exhaustively checks the EventBus spec (3 listeners, all subscribe/unsubscribe/fire orders and completion orders) with the pinned tree's two deviations as negative controls; schedules are replayed on the real Event and ConfigProp with gated listeners and on live components through the API update path; observations judged by TLC (EventBusTrace, ConfigCellsTrace).", note="3 listeners, <=4 changes; policy/retry switches are read live per request (covered by the proxy replays)", tech="TLA+ spec + TLC exhaustive check + gated replay judged by TLC trace validation"),
 }
 ENABLED = os.environ.get("VERIF_CLAIMS", "").split(",") if os.environ.get("VERIF_CLAIMS") else None
 
